@@ -143,6 +143,9 @@ pub use crate::export::ExportError;
 #[cfg(feature = "chrono-impl")]
 mod chrono;
 mod export;
+#[cfg(ts_rs_verif)]
+#[doc(hidden)]
+pub use export::__verif;
 #[cfg(feature = "serde-json-impl")]
 mod serde_json;
 #[cfg(feature = "tokio-impl")]
